@@ -147,8 +147,20 @@ def random_ftrl(ctx, count, thorough):
         init = r.choice(["seed", "given", "given"])
         z0 = [R(r.randint(-8, 8), 4) for _ in range(d)] if init == "given" else []
         n0 = [R(r.choice([0, 0, 1, 4, 9]), 4) for _ in range(d)] if init == "given" else []
-        out.append({"kind": "ftrl", "inp": {"d": d, "hyper": r.choice(FT_HYPERS), "seed": r.randint(0, 1000), "init": init,
-                                            "ft": r.choice(["f64", "f64", "f32"]), "z0": z0, "n0": n0, "batches": batches}})
+        inp = {"d": d, "hyper": r.choice(FT_HYPERS), "seed": r.randint(0, 1000), "init": init,
+               "ft": r.choice(["f64", "f64", "f32"]), "z0": z0, "n0": n0, "batches": batches}
+        if init == "given" and r.random() < 0.5:
+            # continuation with ANOTHER parameter object: the model keeps the hyper-parameters it was built with
+            # (the recurrence, the weights and Ftrl::update all read the model's), fit_with is called on params that
+            # differ in one or all of alpha, beta, l1, l2
+            h2 = dict(inp["hyper"])
+            other = r.choice([hh for hh in FT_HYPERS + [FT_DEFAULT] if hh != inp["hyper"]])
+            for key in r.choice([["alpha"], ["alpha"], ["beta"], ["l1"], ["l2"], ["alpha", "beta", "l1", "l2"]]):
+                h2[key] = other[key]
+            if h2 == inp["hyper"]:
+                h2["alpha"] = R(3, 10) if inp["hyper"]["alpha"] != R(3, 10) else R(3, 4)
+            inp["hyper2"] = h2
+        out.append({"kind": "ftrl", "inp": inp})
     return out
 
 
